@@ -466,7 +466,7 @@ func runFcgi(mode string) sim.RigFunc {
 			fmt.Fprintf(&b, "\tlimits {\n\t\tbody /app %d\n\t}\n", r.limit)
 		}
 		c.Params["body_limit"] = r.limit
-		b.WriteString("\tfastcgi /app 10.8.0.1:9000 {\n\t\text .php\n\t\tsplit .php\n\t\tindex index.php\n\t\tenv APP_ENV prod\n\t\tenv REQ_HOST {host}\n\t\tenv REQ_QUERY q:{query}\n\t\tenv RULE_ONE yes\n")
+		b.WriteString("\tfastcgi /app 10.8.0.1:9000 {\n\t\text .php\n\t\tsplit .php\n\t\tindex index.php\n\t\tenv APP_ENV prod\n\t\tenv REQ_HOST {host}\n\t\tenv REQ_QUERY q:{query}\n\t\tenv HTTP_X_FORWARDED_PROTO https\n\t\tenv RULE_ONE yes\n")
 		r.readTimeout = 60 * time.Second
 		if st.Draw(3) == 0 && mode == "C19" {
 			b.WriteString("\t\tread_timeout 5s\n")
@@ -483,7 +483,7 @@ func runFcgi(mode string) sim.RigFunc {
 			if r.ext2 == "cgi" {
 				split2 = ".cgi"
 			}
-			fmt.Fprintf(&b, "\tfastcgi /app 10.8.0.1:9000 {\n\t\text %s\n\t\tsplit %s\n\t\tenv APP_ENV prod\n\t\tenv REQ_HOST {host}\n\t\tenv REQ_QUERY q:{query}\n\t\tenv RULE_TWO yes\n\t}\n", r.ext2, split2)
+			fmt.Fprintf(&b, "\tfastcgi /app 10.8.0.1:9000 {\n\t\text %s\n\t\tsplit %s\n\t\tenv APP_ENV prod\n\t\tenv REQ_HOST {host}\n\t\tenv REQ_QUERY q:{query}\n\t\tenv HTTP_X_FORWARDED_PROTO https\n\t\tenv RULE_TWO yes\n\t}\n", r.ext2, split2)
 			c.Params["second_rule_ext"] = r.ext2
 		}
 		r.catchAll = mode == "C19" && r.prefix == "" && st.Draw(2) == 0
@@ -607,7 +607,7 @@ func (r *fcgiRig) addReq(i int) {
 		r.c.Probe("script-of-the-second-matching-rule")
 	}
 	q.path, q.scriptName, q.pathInfo = p.path, p.script, p.info
-	q.method = []string{"GET", "POST", "POST", "PUT", "HEAD", "DELETE", "OPTIONS"}[st.Draw(7)]
+	q.method = []string{"GET", "POST", "POST", "PUT", "HEAD", "DELETE", "OPTIONS", "PATCH", "get", "M-Search"}[st.Draw(10)] // (a method is any token, as written)
 	q.query = fmt.Sprintf("a=%d&rid=%d&z=%%20x", st.Draw(100), i)
 	// headers: sizes around the 127/128 one-byte/four-byte length boundary and a big one
 	nh := st.Draw(4)
@@ -637,6 +637,12 @@ func (r *fcgiRig) addReq(i int) {
 	}
 	if st.Draw(3) == 0 {
 		q.hdrs = append(q.hdrs, [2]string{"X-Multi", "one"}, [2]string{"X-Multi", "two"})
+	}
+	if st.Draw(4) == 0 {
+		q.hdrs = append(q.hdrs, [2]string{"X-Forwarded-Proto", "gopher"}) // (the rule configures HTTP_X_FORWARDED_PROTO itself)
+	}
+	if st.Draw(4) == 0 {
+		q.hdrs = append(q.hdrs, [2]string{"Cookie", "session=abc123"}, [2]string{"Cookie", "theme=dark; lang=en"})
 	}
 	if r.mode == "C19" && r.catchAll && st.Draw(4) == 0 {
 		// a request target without a path: the handlers see an empty URL.Path
@@ -944,7 +950,11 @@ func (r *fcgiRig) judge() {
 		}
 		for k, v := range hv {
 			want[k] = strings.Join(v, ", ")
+			if k == "HTTP_COOKIE" {
+				want[k] = strings.Join(v, "; ") // (several Cookie lines are one cookie string: RFC 6265 5.4, RFC 3875 4.1.18)
+			}
 		}
+		want["HTTP_X_FORWARDED_PROTO"] = "https" // (configured: what a client sends under that name does not replace it)
 		hasBody := q.method == "POST" || q.method == "PUT" || q.body != nil
 		if hasBody {
 			want["CONTENT_TYPE"] = "application/x-test"
